@@ -6,7 +6,8 @@ from ..core import Prop, Reject, Sub, Unsupported
 from ..gen import elements as ge
 from ..gen import meshes as gm
 
-FACET_SPELL = ['array', 'int64', 'list_of_ints', 'predicate', 'name', 'set_of_names', 'tuple_mixed', 'single_int']
+FACET_SPELL = ['array', 'int64', 'list_of_ints', 'predicate', 'name', 'set_of_names', 'tuple_mixed', 'single_int',
+               'tag_predicate', 'tag_predicate_all']
 CELL_SPELL = ['array', 'predicate', 'name', 'list_mixed']
 NODE_SPELL = ['array', 'predicate', 'tuple_coords', 'list_mixed']
 
@@ -30,7 +31,8 @@ def case(draw, tier):
     spell = draw(st.sampled_from({'facets': FACET_SPELL, 'cells': CELL_SPELL, 'nodes': NODE_SPELL, 'default': ['none']}[what]))
     return dict(mesh=desc, elem=el, what=what, spell=spell, pool=draw(st.sampled_from(['boundary', 'interior', 'all'])),
                 picks=draw(st.lists(st.integers(0, 10**4), min_size=1, max_size=8)),
-                filt=draw(st.sampled_from(['none', 'none', 'skip', 'keep', 'drop', 'all'])),
+                filt=draw(st.sampled_from(['none', 'none', 'skip', 'keep', 'drop', 'all', 'skip+drop', 'keep+drop', 'drop+drop', 'keep+keep'])),
+                fpick2=draw(st.integers(0, 100)),
                 fpick=draw(st.integers(0, 100)), seed=draw(st.integers(0, 10**6)))
 
 
@@ -132,6 +134,15 @@ def body(c, ctx):
         F = list(dict.fromkeys(int(pool[int(k) % len(pool)]) for k in c['picks']))
         if c['spell'] == 'single_int':
             F = F[:1]
+        if c['spell'] in ('tag_predicate', 'tag_predicate_all'):
+            # a tag defined by a region predicate on facet midpoints: by default only facets on the boundary of
+            # the domain are tagged (documented boundaries_only=True); with boundaries_only=False all of them
+            midp = m.p[:, m.facets].mean(axis=1)
+            x0 = float(np.median(midp[0]))
+            allf = [int(f) for f in range(nf) if midp[0, f] <= x0]
+            F = [f for f in allf if f in set(bf.tolist())] if c['spell'] == 'tag_predicate' else allf
+            if not F:
+                raise Reject()
         Fa = np.array(F, dtype=np.int32)
         mid = m.p[:, m.facets].mean(axis=1)
         chosen = mid[:, Fa]
@@ -148,6 +159,12 @@ def body(c, ctx):
 
             def arg(x, chosen=chosen, h=h):
                 return np.array([np.any(np.all(np.abs(chosen - x[:, k:k + 1]) <= 1e-12 * h, axis=0)) for k in range(x.shape[1])])
+        elif c['spell'] == 'tag_predicate':
+            mm = m.with_boundaries({'sel': lambda x: x[0] <= x0})
+            arg = 'sel'
+        elif c['spell'] == 'tag_predicate_all':
+            mm = m.with_boundaries({'sel': lambda x: x[0] <= x0}, boundaries_only=False)
+            arg = 'sel'
         elif c['spell'] == 'name':
             mm = m.with_boundaries({'sel': Fa})
             arg = 'sel'
@@ -236,10 +253,31 @@ def body(c, ctx):
         got = call().drop([pickname])
         gotset = got.flatten()
         allowed = set(names) - {pickname}
-    else:
+    elif filt == 'all':
         got = call()
         gotset = got.all([pickname])
         allowed = {pickname}
+    else:
+        # chained filters: each one narrows what the previous one left
+        second = names[c['fpick2'] % len(names)]
+        first, then = filt.split('+')
+        allowed = set(names)
+        if first == 'skip':
+            got = call(skip=[pickname])
+            allowed -= {pickname}
+        elif first == 'keep':
+            got = call().keep([pickname])
+            allowed &= {pickname}
+        else:
+            got = call().drop([pickname])
+            allowed -= {pickname}
+        if then == 'drop':
+            got = got.drop([second])
+            allowed -= {second}
+        else:
+            got = got.keep([second])
+            allowed &= {second}
+        gotset = got.flatten()
     want = table(allowed=allowed, **sel)
     gs = set(int(x) for x in np.asarray(gotset).tolist())
     if len(gs) != len(np.asarray(gotset)):
@@ -249,7 +287,7 @@ def body(c, ctx):
                  f'(filter {filt}:{pickname}; selection {what}/{c["spell"]})', filt=filt, **sig)
         return
     # per-kind dictionaries agree with the flat result
-    if filt in ('none', 'skip', 'keep', 'drop'):
+    if filt != 'all':
         parts = set()
         for dct in (got.nodal, got.facet, got.edge, got.interior):
             for nm, arr in dct.items():
